@@ -158,12 +158,25 @@ type aolVariant struct {
 	Ctl      []string
 	Genesis  func(gs map[string][]byte) // unused hook
 	Inject   *aolInject                 // C13: genesis-injected odd owners
+	Case     bool                       // reduced alphabet over two topics of one owner whose names differ only in letter case
 }
 
 func aolOps(acc aolAccounts, v aolVariant) []explore.Op {
 	A, B, W, X, F := acc.A, acc.B, acc.W, acc.X, acc.F
 	s := func(a ...*world.Account) []*world.Account { return a }
 	var ops []explore.Op
+	if v.Case {
+		// topic names are case-sensitive byte strings: "a" and "A" are two topics with separate writers, counters and records
+		for _, t := range []string{"a", "A"} {
+			ops = append(ops,
+				txOp(fmt.Sprintf("CreateTopic(A,%s)", t), s(A), aoltypes.NewMsgCreateTopic(t, "desc-"+t, A.Bech)),
+				txOp(fmt.Sprintf("AddWriter(A,%s,W)", t), s(A), aoltypes.NewMsgAddWriter(t, "mon."+t, "", W.Bech, A.Bech)),
+				txOp(fmt.Sprintf("AddRecord(A,%s,by=W)", t), s(W), aoltypes.NewMsgAddRecordRequest(t, []byte("k-"+t), []byte("v-"+t), W.Bech, A.Bech, "")),
+			)
+		}
+		ops = append(ops, txOp("DeleteWriter(A,A,W)", s(A), aoltypes.NewMsgDeleteWriter("A", W.Bech, A.Bech)))
+		return append(ops, ctlOps(v.Ctl...)...)
+	}
 	type ot struct {
 		o *world.Account
 		t string
@@ -986,6 +999,10 @@ func C01(t Tier) int {
 		bounds = []explore.Bounds{{Depth: 5, V: 1, Deadline: dl}, {Depth: 5, V: 2, Deadline: dl}, {Depth: 6, V: 2, Deadline: dl}, {Depth: 7, V: 2, Deadline: dl}}
 	}
 	RunGraph(run, sys, bounds, 6)
+	// third system: two topics of one owner whose names differ only in letter case (reduced alphabet, deeper)
+	cs := aolSystem(aolVariant{ID: "C01/case", OwnRec: true, OwnACL: true, OwnCount: true, Case: true, Ctl: []string{"XI"}})
+	cdl := deadline(t, 45*time.Second, 4*time.Minute)
+	RunGraph(run, cs, []explore.Bounds{{Depth: 6, V: 1, Deadline: cdl}, {Depth: 7, V: 1, Deadline: cdl}}, 4)
 	// second initial state: topic (A,a) already holds 255 records (genesis-injected), so that the explored appends are
 	// handed offsets 255, 256, 257 (offset encodings beyond one byte)
 	acc := aolAccs()
